@@ -19,6 +19,37 @@ def design(ctx):
     if r.rc != 12:
         raise vlib.Infra("MC_RSSTally without Reset was not rejected by TLC - the model is vacuous")
     ctx.note("without Reset TLC exhibits the stale answer (NoStale violated): the contract 'reset between images' is load-bearing")
+    apalache(ctx)
+
+
+def apalache(ctx):
+    """unbounded: the inductive invariant of spec/Apa_RSSTally.tla (Init => IndInv, IndInv /\\ Next => IndInv') discharged by Apalache;
+    the same module without the caller's reset must be refuted"""
+    import os, shutil, subprocess
+    d = ctx.dir("apa")
+    for f in ("RSSTally.tla", "Apa_RSSTally.tla"):
+        shutil.copy(os.path.join(vlib.VERIF, "spec", f), d)
+    bad = open(os.path.join(d, "Apa_RSSTally.tla")).read().replace("MODULE Apa_RSSTally", "MODULE Apa_Bad").replace(
+        "Begin(s) == img = 0 /\\ lefts = <<>> /\\ rights = <<>> /\\ img' = s", "Begin(s) == img = 0 /\\ img' = s")
+    open(os.path.join(d, "Apa_Bad.tla"), "w").write(bad)
+
+    def run(mod, init, length):
+        try:
+            r = subprocess.run(["apalache-mc", "check", "--init=" + init, "--inv=IndInv", "--length=%d" % length, mod + ".tla"], cwd=d,
+                               capture_output=True, text=True, timeout=900)
+        except subprocess.TimeoutExpired:
+            raise vlib.Infra("apalache timed out on " + mod)
+        return r.returncode, r.stdout + r.stderr
+    rc0, o0 = run("Apa_RSSTally", "Init", 0)
+    rc1, o1 = run("Apa_RSSTally", "IndInit", 1)
+    rcb, ob = run("Apa_Bad", "IndInit", 1)
+    if rc0 != 0 or rc1 != 0 or "NoError" not in o1:
+        raise vlib.Infra("Apalache did not discharge the inductive invariant of Apa_RSSTally (rc %d / %d):\n%s" % (rc0, rc1, (o0 + o1)[-1500:]))
+    if rcb != 12:
+        raise vlib.Infra("Apalache did not refute the tally machine without Reset (rc %d) - the invariant is vacuous" % rcb)
+    ctx.note("Apalache: IndInv of Apa_RSSTally is inductive (base + step): NoStale holds for ANY number of images and rows when the caller "
+             "resets the reader; without the reset the step is refuted")
+    ctx.cmds.append("apalache-mc check --init=IndInit --inv=IndInv --length=1 Apa_RSSTally.tla")
 
 
 def digits(rng):
